@@ -237,7 +237,7 @@ def pdffitShape (l : Line) : M Unit := do
 
 /-- header loop; returns the state and the lines left in the iterator after `atoms` -/
 def pdffitHeader : List Line → PState → M (PState × List Line)
-  | [], st => pure (st, [])
+  | [], _ => raise .SFE           -- `for … else: raise StructureFormatError`: no `atoms` record
   | l :: rest, st =>
     match l.words with
     | [] => pdffitHeader rest st
@@ -343,7 +343,7 @@ def discusShape (l : Line) : M Unit := do
   else raise .SFE
 
 def discusHeader (cfg : DiscusCfg) : List Line → DState → M (DState × List Line)
-  | [], st => pure (st, [])
+  | [], _ => raise .SFE           -- `for … else: raise StructureFormatError`: no `atoms` record
   | l :: rest, st =>
     match l.words with
     | [] => discusHeader cfg rest st
